@@ -283,6 +283,23 @@ func (c *Controller) runActor(a *actor) {
 	c.ping()
 }
 
+// adopt makes the calling goroutine stand for actor a (hooks are attributed by goroutine id) until
+// the returned function is called.
+func (c *Controller) adopt(a *actor) (restore func()) {
+	gid := curGID()
+	c.mu.Lock()
+	old := a.gid
+	c.byGID[gid] = a
+	a.gid = gid
+	c.mu.Unlock()
+	return func() {
+		c.mu.Lock()
+		delete(c.byGID, gid)
+		a.gid = old
+		c.mu.Unlock()
+	}
+}
+
 // quiesce waits until no actor is running: each one is parked, done, or blocked in a primitive.
 func (c *Controller) quiesce() {
 	start := time.Now()
